@@ -16,6 +16,8 @@ use crate::{dprintln, features};
 pub use self::breakpoint::{Breakpoint, Breakpoints};
 #[cfg(feature = "verif")]
 pub use self::command::{verif_terminal, VerifTerminal};
+#[cfg(feature = "verif")]
+pub use self::command::verif_hooks::{verif_parse_line, verif_read_all};
 
 /// Leave this as a struct, in case more options are added in the future. Plus it is more explicit.
 #[derive(Debug)]
